@@ -105,8 +105,8 @@ class Ctx:
                     print('KNOWN-FINDING: property=%s %s' % (self.pid, f['description']), flush=True)
                 return False
         n = len(self.violations)
-        if os.environ.get('VERIF_REPLAY'):
-            print('VIOLATION property=%s replay=%s' % (self.pid, os.environ['VERIF_REPLAY']), flush=True)
+        if os.environ.get('VERIF_REPLAY') or os.environ.get('VERIF_NO_EVIDENCE'):
+            print('VIOLATION property=%s replay=%s' % (self.pid, os.environ.get('VERIF_REPLAY') or '(not stored: trial run)'), flush=True)
             print('  ' + what[:400], flush=True)
             self.violations.append(what)
             return True
@@ -136,7 +136,7 @@ class Ctx:
         if not self.cov['samples']:
             self.cov['samples'] = ['(none recorded)']
         os.makedirs(os.path.join(VERIF, 'evidence'), exist_ok=True)
-        if not os.environ.get('VERIF_REPLAY'):      # a replay of one stored case is not evidence
+        if not os.environ.get('VERIF_REPLAY') and not os.environ.get('VERIF_NO_EVIDENCE'):      # replays / mutant trials are not evidence
             with open(os.path.join(VERIF, 'evidence', '%s.json' % self.pid), 'w') as f:
                 json.dump(ev, f, indent=1, default=_jd)
         print('%s %s: states=%d transitions=%d impl_traces=%d evaluations=%d nontrivial=%d violations=%d wall=%.1fs' % (
